@@ -6,7 +6,7 @@ from .encoders import encode_multipart
 from .wsgi import make_environ
 
 KINDS = ['ok', 'ok_json_accept', 'notfound', 'notfound_json', 'wrongverb', 'badpath', 'badchunk', 'oversized', 'badmultipart', 'badjson', 'crash', 'raised', 'gen', 'form',
-         'cookie_then_abort', 'head_ok', 'rex', 'typed', 'expires', 'longpath', 'longquery', 'status_str', 'status_int', 'signed', 'urlinfo', 'auth', 'bigform', 'chunked_ok', 'header_case', 'inject_arg', 'notmodified', 'nocontent', 'blog_direct', 'dm_info', 'resp_copy', 'form_fixed', 'sess_mutate', 'qs_reassign', 'api_404', 'api_item', 'neg_cl', 'hugepath', 'urlbuild', 'manyheaders', 'emptyform', 'emptybody', 'upload_headers', 'latin_gen']
+         'cookie_then_abort', 'head_ok', 'rex', 'typed', 'expires', 'longpath', 'longquery', 'status_str', 'status_int', 'signed', 'urlinfo', 'auth', 'bigform', 'chunked_ok', 'header_case', 'inject_arg', 'notmodified', 'nocontent', 'blog_direct', 'dm_info', 'resp_copy', 'form_fixed', 'sess_mutate', 'qs_reassign', 'api_404', 'api_item', 'neg_cl', 'hugepath', 'urlbuild', 'manyheaders', 'emptyform', 'emptybody', 'upload_headers', 'latin_gen', 'hdr_types', 'notmod_noetag', 'badstart']
 
 
 # kinds for sequential histories only (their handlers change application-wide state on purpose: hooks, a shared prepared error object)
@@ -133,6 +133,21 @@ def make_app(probe=None, config=None, private_errors=False, app=None, foreign=No
     def static(name):
         # files served from a directory of the harness (fixed content and modification time)
         return ombott.static_file(name, root=static_dir(), download=bool(rq.query.get('dl')))
+
+    @app.route('/hdrtypes', overwrite=True)
+    def hdrtypes():
+        # header values of several types that compare equal across types (True == 1 == 1.0, False == 0 == 0.0 == -0.0)
+        n = int(rq.query.get('n', '0'))
+        rs.headers['X-Flag'] = [True, 1, 1.0, 0, False, 0.0, -0.0, '1', 2, 2.0][n % 10]
+        rs.headers['X-Other'] = [1.0, True, 1, False, 0.0, 0, 0, 1, 2.0, 2][n % 10]
+        return 'x' * (1 + n % 2)
+
+    @app.route('/notmod2', overwrite=True)
+    def notmod2():
+        # a 304 that carries Last-Modified but no ETag (what static_file answers)
+        rs.status = 304
+        rs.headers['Last-Modified'] = 'lm2-' + rq.query.get('q', '')
+        return ''
 
     @app.route('/latin', overwrite=True)
     def latin():
@@ -434,6 +449,14 @@ def make_env(kind, n, stream_cls=Stream):
         return _e('GET' if n % 2 else 'HEAD', '/static/doc.txt', q, headers={'If-Modified-Since': 'Sun, 09 Sep 2001 01:46:40 GMT' if n % 3 else 'Sat, 08 Sep 2001 01:46:40 GMT'})
     if kind == 'static_dl':
         return _e('GET', '/static/doc.txt', q + '&dl=1')
+    if kind == 'hdr_types':
+        return _e('GET', '/hdrtypes', 'n=%d' % n)
+    if kind == 'notmod_noetag':
+        return _e('GET', '/notmod2', q)
+    if kind == 'badstart':
+        b = 'S%dt' % n
+        data = ('junk before the first delimiter %d\r\n--%s\r\nContent-Disposition: form-data; name="a"\r\n\r\nv\r\n--%s--\r\n' % (n, b, b)).encode()
+        return _e('POST', '/form', q, stream=stream_cls(data), content_length=len(data), headers={'Content-Type': 'multipart/form-data; boundary=' + b})
     if kind == 'latin_gen':
         return _e('GET', '/latin', 'n=%d' % n)
     if kind == 'qs_reassign':
